@@ -254,3 +254,7 @@ func Observe(name string, v uint64) {
 
 // ChanCap limits the capacity of a channel under the symbolic executor (no-op natively).
 func ChanCap(ch interface{}, n int) {}
+
+// Guard registers a lock discipline with the symbolic executor: map m may only be read while
+// *mu is held and written while it is write-held (natively the race detector plays this role).
+func Guard(m interface{}, mu interface{}, id string) {}
